@@ -283,6 +283,13 @@ where
         return Ok(output.into_dyn());
     }
 
+    // `build_im2col` tests whether an element is in the padding region by
+    // comparing element offsets. This requires the spatial dims to have
+    // non-zero strides, which is not the case for eg. broadcast views.
+    let input_copy = (has_padding && (input.stride(2) == 0 || input.stride(3) == 0))
+        .then(|| input.to_tensor_in(pool).auto_return(pool));
+    let input = input_copy.as_ref().map(|t| t.view()).unwrap_or(input);
+
     let n_patches = out_h * out_w;
     let mut output = NdTensor::uninit_in(pool, [batch, out_channels, n_patches]);
     let gemm = GemmExecutor::<W, X, Y>::default();
@@ -897,6 +904,39 @@ mod tests {
             &[1, 1], /* stride */
             &[1, 1], /* dilations */
         )?;
+
+        Ok(())
+    }
+
+    // Padded convolution of inputs which have a zero stride in a spatial
+    // dimension (eg. broadcast views).
+    #[test]
+    fn test_conv_zero_stride_input_with_padding() -> Result<(), Box<dyn Error>> {
+        let mut rng = XorShiftRng::new(1234);
+        let kernel = Tensor::rand(&[4, 3, 3, 3], &mut rng);
+        let pointwise_kernel = Tensor::rand(&[4, 3, 1, 1], &mut rng);
+        let bias = NdTensor::rand([4], &mut rng);
+
+        let row = Tensor::rand(&[1, 3, 1, 8], &mut rng);
+        let col = Tensor::rand(&[1, 3, 8, 1], &mut rng);
+        let shape = [1, 3, 8, 8];
+
+        for input in [
+            row.broadcast(shape.as_slice()),
+            col.broadcast(shape.as_slice()),
+        ] {
+            for kernel in [&kernel, &pointwise_kernel] {
+                check_conv(
+                    input.view(),
+                    kernel.view(),
+                    Some(bias.view()),
+                    [1, 1, 1, 1].into(),
+                    1,       /* groups */
+                    &[1, 1], /* stride */
+                    &[1, 1], /* dilations */
+                )?;
+            }
+        }
 
         Ok(())
     }
